@@ -57,6 +57,15 @@ func c03Systems() []*HistSys {
 		out = append(out, &HistSys{Class: c, Cfg: cfgTwoPools(false), NPods: 2, Replicas: 2, Ops: histOpsAll, PrefixName: "allbound",
 			Prefix: []Op{{Kind: "create", A: 0}, {Kind: "sched", A: 0}, {Kind: "create", A: 1}, {Kind: "sched", A: 1}}})
 	}
+	// restarts (the tables are rebuilt from the stored objects: what decides a release must survive that)
+	opsRestart := map[string]bool{"restart": true}
+	for k, v := range histOpsAll {
+		opsRestart[k] = v
+	}
+	for _, c := range []wkClass{{"sts", "immutable"}, {"sts", "never"}, {"dp", "immutable"}, {"dppool", ""}} {
+		out = append(out, &HistSys{Class: c, Cfg: cfgTwoPools(false), NPods: 2, Replicas: 2, Ops: opsRestart, PrefixName: "restarts",
+			Prefix: []Op{{Kind: "create", A: 0}, {Kind: "sched", A: 0}, {Kind: "create", A: 1}, {Kind: "sched", A: 1}}})
+	}
 	// pods whose keys are in a prefix relation (a-1 / a-10)
 	for _, c := range []wkClass{{"stspfx", ""}, {"stspfx", "immutable"}} {
 		out = append(out, &HistSys{Class: c, Cfg: cfgTwoPools(false), NPods: 2, Replicas: 11, Ops: histOpsAll, PrefixName: "allbound",
